@@ -254,6 +254,21 @@ class Analysis:
                     out.append((ta, tb, r))
         return out
 
+    def self_conflict_exclusive(self, t, x, y):
+        """Transaction t reaches both sides x, y of a conflict: are all its calls of x exclusive with all its calls of y?"""
+        if x == t or y == t:
+            return False
+        cx = [c for c in self.chains[t] if c[-1].target == x]
+        cy = [c for c in self.chains[t] if c[-1].target == y]
+        for c1 in cx:
+            for c2 in cy:
+                i = 0
+                while i < len(c1) and i < len(c2) and c1[i] is c2[i]:
+                    i += 1
+                if not (i < len(c1) and i < len(c2) and pos_exclusive(c1[i].mod, c1[i].pos, c2[i].mod, c2[i].pos)):
+                    return False
+        return True
+
     def relation_table(self):
         """(t1, t2) -> 'MUST' | 'AMB' for unordered pairs that may block each other; absent = must not."""
         tab = {}
@@ -282,7 +297,12 @@ class Analysis:
 
     def shape_flags(self):
         """Program-shape predicates used to tell violation classes / known findings apart."""
-        f = {"has_condition": bool(self.conds), "cond_in_conditionally_called_method": False,
+        selfs = [(x, r) for x, y, r in self.explicit_pairs() if x == y]
+        f = {"self_conflict": bool(selfs),
+             "self_conflict_exclusive_paths": bool(selfs) and all(
+                 self.self_conflict_exclusive(x, self.resolve(r["a"]), self.resolve(r["b"])) for x, r in selfs),
+             "self_conflict_prioritised": any(r.get("prio", "U") != "U" for _, r in selfs),
+             "has_condition": bool(self.conds), "cond_in_conditionally_called_method": False,
              "cond_branch_reaches_validate": False, "cond_two_blocks_in_one_body": False}
         encls = [e for (_, e) in self.conds.values()]
         f["cond_two_blocks_in_one_body"] = len(encls) != len(set(encls))
